@@ -11,6 +11,14 @@ def hierarchy_scripts(rng, tier):
     for i in range(60 if tier == "quick" else 3000):
         lines, sf = hier.gen_hier(rng)
         out.append(("hier-%d" % i, lines, sf))
+    # a server that has been up for a long time: ordinary scripts started at a large tick (the encoded ticks get wider);
+    # the 2^32 wrap itself is exercised under C12
+    import scripts as gen_scripts
+    for i in range(20 if tier == "quick" else 600):
+        lines, meta = gen_scripts.gen_script(rng, late_join=rng.random() < 0.5, max_size=rng.choice([None, 1, 60]), burst=0.1, length=rng.choice([25, 40]))
+        lines[0] += " tick0=%d" % rng.choice([2**7 - 2, 2**14 - 3, 2**21 - 2, 2**28 - 3, 2**28 + 7, 2**31 - 20])
+        sf = len(lines)
+        out.append(("long-uptime-%d" % i, lines + gen_scripts.settle_lines(meta), sf))
     return out
 
 
